@@ -169,7 +169,18 @@ def h_build_history(env, N, prog, script, cls='CliffordCircuit', direction='forw
     backward on a scratch operand -- and then acts as the ordered product of all gates added (forward) or undoes it
     (roundtrip): whatever was compiled, copied or run in between"""
     M = Mods(env)
-    gates, tables, assumptions = make_gates(env, M, N, prog)
+    # ['same', k] in the program: the k-th gate OBJECT is taken again (one object referenced from two places)
+    base = [op for op in prog if op[0] != 'same']
+    g0, t0, assumptions = make_gates(env, M, N, base)
+    gates, tables, bi = [], [], 0
+    for op in prog:
+        if op[0] == 'same':
+            gates.append(gates[op[1]])
+            tables.append(tables[op[1]])
+        else:
+            gates.append(g0[bi])
+            tables.append(t0[bi])
+            bi += 1
     for a in assumptions:
         env.assume(a, 'symbolic map gates are valid maps')
     gs = env.bits('in', (1, 2 * N))
